@@ -89,13 +89,15 @@ def _map_block(blk, lo, bo, po):
             t["unwind"] += bo
 
 
-def default_pick(prog, root, keep=()):
+def default_pick(prog, root, keep=(), cross=None):
     """Inline crate-local non-public callees (private and pub(crate) free functions / inherent or
-    trait methods) that resolve uniquely, except the ones a rule names in `keep` (its atoms:
-    predicates on the callee Fn or path prefixes/suffixes)."""
+    trait methods) defined in the same source file as the root that resolve uniquely, except the ones
+    a rule names in `keep` (its atoms: predicates on the callee Fn or path prefixes/suffixes)."""
     def pick(call, g):
         if g.vis == "pub" or g.kind == "closure":
             return False
+        if g.file != root.file and not (cross is not None and cross(g)):
+            return False     # crate-internal API of another module (a primitive), not a local helper
         for k in keep:
             if callable(k):
                 if k(g):
@@ -106,10 +108,10 @@ def default_pick(prog, root, keep=()):
     return pick
 
 
-def inline(prog, f, pick=None, keep=(), depth=MAX_DEPTH):
+def inline(prog, f, pick=None, keep=(), depth=MAX_DEPTH, cross=None):
     """Return an inlined view of `f` (a fresh core.Fn; `f` itself if nothing was inlined)."""
     if pick is None:
-        pick = default_pick(prog, f, keep)
+        pick = default_pick(prog, f, keep, cross)
     j = f.j
     blocks = copy.deepcopy(j["blocks"])
     locals_ = list(j["locals"])
